@@ -401,6 +401,18 @@ static std::vector<Case> enum_C20(const GenCtx &ctx) {
     c.sets("prop", "C20").sets("op", name).set("m", 20).set("l", 20).set("n", 70).set("k", 1031).setu("seed", 5);
     v.push_back(c);
   }
+  // a handful of rows, very many columns: per-row scratch (write masks, permutation tables, row buffers) is sized by the
+  // width, and an allocation may only exist beyond a width threshold derived from the L1 size (64 words with a 4 KiB L1,
+  // 512 words with 32 KiB)
+  for (const char *name : {"apply_p_right", "apply_p_right_trans", "ple", "pluq", "echelonize_pluq", "echelonize_m4ri", "add", "copy", "png_write"}) {
+    for (int wide : {4200, 33000}) {
+      Case c;
+      c.sets("prop", "C20").sets("op", name).set("m", 4).set("l", 4).set("n", wide).set("k", 0).setu("seed", 7 + wide);
+      for (int s2 = 0; s2 < NSCN; s2++)
+        if (std::string(SCN[s2].name) == name && SCN[s2].needs_file) c.sets("file", tmpdir() + "/vf-c20-wide-" + std::to_string(wide));
+      v.push_back(c);
+    }
+  }
   for (const char *name : {"create", "copy", "add", "transpose", "submatrix", "concat", "stack", "transpose_into_window", "mzp_init"}) {
     for (int big : {2944, 4160}) {
       Case c;
@@ -431,7 +443,7 @@ RegisterProp p_C20({"C20",
                     "fault enumeration: scenario (create, window, permutation object, every multiplication route incl. squaring and the "
                     "multi-core front end where built, every elimination route, PLE/PLUQ, three inversions, solve, kernel, four TRSMs, "
                     "transposition incl. into / from a window with excess bits, copy/submatrix/concat/stack/add/extract, permutation "
-                    "applications, PNG write/read, JCF read, string constructor, DJB compile with > 64 operations, library re-initialisation, 70-198 and 1031 "
+                    "applications, PNG write/read, JCF read, string constructor, DJB compile with > 64 operations, library re-initialisation, 4-row operands with 4200 / 33000 columns, 70-198 and 1031 "
                     "simultaneously live headers) x operand sizes "
                     "(3 fixed variants quick / 4 thorough + generated sizes); for each instance the allocation requests are counted in "
                     "a forked child started from an empty block cache and then EVERY request index i is failed in a fresh child; "
